@@ -146,8 +146,9 @@ def strategy(tier):
 
 
 def enumerate_cases(tier):
-    for kind, base in (("i", [1, 2, 3, 5]), ("s", ["a", "b", "c", "e"]), ("f", [0.5, 1.5, 2.5, 4.5])):
-        ab = {"i": [0, 4, 9, 2.5, 1.75], "s": ["A", "d", "zz"], "f": [0.0, 3.5, 9.0]}[kind]
+    for kind, base in (("i", [1, 2, 3, 5]), ("s", ["a", "b", "c", "e"]), ("f", [0.5, 1.5, 2.5, 4.5]), ("F", [2000.0, 2000.01, 2000.02, 2000.04])):
+        # ("F": float labels of large magnitude and small spacing - neighbours differ by 5e-6 relative - with absent near misses)
+        ab = {"i": [0, 4, 9, 2.5, 1.75], "s": ["A", "d", "zz"], "f": [0.0, 3.5, 9.0], "F": [2000.005, 2000.03, 1999.99, 2000.0101]}[kind]
         for perm in itertools.permutations(base):
             yield "1d-permutations-of-4-labels", {"mode": "sweep", "labels": list(perm), "queries": list(perm) + ab}
 
@@ -219,6 +220,8 @@ def run_index(case):
             i = nonfull_l[0]
             L.append(("take(i, axis=name)", lambda: a.take(lt[i], axis=dims[i])))
             L.append(("take(i, axis=pos)", lambda: a.take(lt[i], axis=i)))
+            L.append(("take(i, axis=negative pos)", lambda: a.take(lt[i], axis=i - nd)))
+            L.append(("take({negative pos: i})", lambda: a.take({i - nd: lt[i]})))
         sig = {"mode": "label", "by": by}
         for name, f in L:
             _apply(f, lexc, vals, dims, labels, lidx, "%s lidx=%s" % (name, core.jsonable(lidx)), sig)
@@ -239,6 +242,7 @@ def run_index(case):
         if len(nonfull_p) == 1:
             i = nonfull_p[0]
             P.append(("take(i, axis=name, position)", lambda: a.take(pt[i], axis=dims[i], indexing="position")))
+            P.append(("take(i, axis=negative pos, position)", lambda: a.take(pt[i], axis=i - nd, indexing="position")))
         sig = {"mode": "position", "by": by}
         for name, f in P:
             _apply(f, pexc, vals, dims, labels, pidx, "%s pidx=%s" % (name, core.jsonable(pidx)), sig)
